@@ -25,6 +25,8 @@ def run(c):
     data = np.array([[dyadic(rng, 0.5, 6, 4) for _ in range(N)] for _ in range(N)], np.float32)
     rms = np.array([[dyadic(rng, 0.25, 2, 4) for _ in range(N)] for _ in range(N)], np.float32)
     mask = (rng.random((N, N)) < 0.3) if c["mask"] else None
+    if mask is not None:
+        rms = np.where(mask, rms * 8.0, rms).astype(np.float32)       # masked (bad) pixels typically carry inflated uncertainties
     psf = psf_stamp("gauss", 3)
     kw = dict(os_pixel_size=1, num_os=2) if c["renderer"] == "pixel" else {}
     lossf = getattr(ploss, c["loss"])
